@@ -293,9 +293,10 @@ _q_cache = {}
 
 
 def _has_quantifier(f):
+    # z3 recycles AST ids once a term is freed: the cache keeps the term alive so that its id stays its own
     key = f.get_id()
     if key in _q_cache:
-        return _q_cache[key]
+        return _q_cache[key][1]
     todo = [f]
     seen = set()
     res = False
@@ -308,7 +309,7 @@ def _has_quantifier(f):
             res = True
             break
         todo.extend(t.children())
-    _q_cache[key] = res
+    _q_cache[key] = (f, res)
     return res
 
 
